@@ -363,3 +363,32 @@ func (r *Run) Finish() int {
 	fmt.Printf("HELD property=%s on everything explored\n", r.Prop)
 	return 0
 }
+
+// ReadReplay seed, tier and violation kind recorded in a replay file
+func ReadReplay(path string) (seed int64, tier, kind string, err error) {
+	buf, err := os.ReadFile(path)
+	if err != nil {
+		return
+	}
+	var rep struct {
+		Seed int64  `json:"seed"`
+		Tier string `json:"tier"`
+		Kind string `json:"kind"`
+	}
+	if err = json.Unmarshal(buf, &rep); err != nil {
+		return
+	}
+	return rep.Seed, rep.Tier, rep.Kind, nil
+}
+
+// SawKind whether a violation (listed or not) of this kind was reported in this run
+func (r *Run) SawKind(kind string) bool {
+	r.mu.Lock()
+	defer r.mu.Unlock()
+	for _, v := range r.viol {
+		if v.Kind == kind {
+			return true
+		}
+	}
+	return false
+}
